@@ -321,6 +321,8 @@ Callees(P) ==
 Sizes(P) == [f \in 1..NIds |-> IF f <= Len(P) THEN Size(BodyOf(P, f)) ELSE 1]
 
 ---------------------------------------------------------------------------
+Flags == {"retstmt", "closeun", "cpdefx"}
+
 VARIABLES phase,    \* "build" -> "walk" -> "done" | "skip" (outside the domain)
           fns,      \* the program built so far
           todo,     \* requested functions that have no body yet: [cls "d" | "g", d depth]
@@ -377,14 +379,16 @@ AddGen  == /\ phase = "build" /\ todo # <<>> /\ fns # <<>> /\ Head(todo).cls = "
 RunProg ==
   /\ phase = "build" /\ todo = <<>>
   /\ LET ref == Run(fns, {})
-         pr  == Proj(ref.ev)
-         \* hazards: the variants that change the visible stream of this program
-         hz  == {h \in {"retstmt", "closeun", "cpdefx"} : Proj(Run(fns, {h}).ev) # pr}
+         \* the visible stream under every combination of the implementation-shaped variants (they interact:
+         \* a return event emitted early changes where the events of a phantom activation fall)
+         sv  == [F \in SUBSET Flags |-> IF F = {} THEN Proj(ref.ev) ELSE Proj(Run(fns, F).ev)]
+         \* hazards: the variants that matter for this program in some combination
+         hz  == {h \in Flags : \E F \in SUBSET Flags : h \in F /\ sv[F] # sv[F \ {h}]}
          amb == \E i \in 1..Len(fns) : Ambig(BodyOf(fns, i), FALSE, FALSE)
      IN /\ phase' = IF ref.unsup \/ amb THEN "skip" ELSE "walk"
         /\ evs' = ref.ev
         /\ res' = [out |-> ref.out, hz |-> hz,
-                   iv |-> {[fl |-> F, pj |-> Proj(Run(fns, F).ev)] : F \in (SUBSET hz) \ {{}}},
+                   iv |-> {[fl |-> F, pj |-> sv[F]] : F \in {G \in SUBSET hz : G # {} /\ sv[G] # sv[{}]}},
                    cal |-> Callees(fns), sz |-> Sizes(fns)]
   /\ UNCHANGED <<fns, todo, pos, stk, ska, susp, started, ended, bad>>
 
